@@ -1278,7 +1278,6 @@ func (f *FuncCFG) CheckMustNode(from []*cfg.Block, targets map[*cfg.Block]bool, 
 	return true, nil, len(sites)
 }
 
-
 // mustBefore: every path from 'from' to each target *site* passes one of the 'must' sites first; inside one basic
 // block the order of the nodes decides (a must-site after the target in the same block does not count).
 func (f *FuncCFG) mustBefore(from []*cfg.Block, targets []site, must []site, assume *Assume) (bool, []string) {
